@@ -784,7 +784,26 @@ impl Child {
     fn oracle_reported(&mut self) {
         let calls = self.calls.clone();
         let mut worker_failed_gen: Option<u64> = None;
+        // a failed merge must stay confined: the same writer's later calls, when they hit no
+        // fault themselves, still succeed
+        let mut merge_failed_gen: Option<u64> = None;
+        let mut other_failure_gen: Option<u64> = None;
         for c in &calls {
+            {
+                let c0 = c.tok.chars().next().unwrap_or('-');
+                let own_fault = c.tags.iter().any(|t| *t != "bg" && *t != "gx");
+                if c.res != "ok" && !own_fault && matches!(c0, 'a' | 'c' | 'g' | 'm')
+                    && merge_failed_gen == Some(c.writer_gen) && other_failure_gen != Some(c.writer_gen) && worker_failed_gen != Some(c.writer_gen)
+                {
+                    self.violation("oracle", "C11:merge-error-not-confined", format!("after a merge of this writer failed, `{}` returned {} although none of its own storage operations failed", c.what, c.res));
+                }
+                if c.res != "ok" {
+                    if c0 == 'm' { merge_failed_gen = Some(c.writer_gen); } else if matches!(c0, 'a' | 'c' | 'r') { other_failure_gen = Some(c.writer_gen); }
+                }
+                if c.tags.contains("wk") {
+                    other_failure_gen = Some(c.writer_gen);
+                }
+            }
             let c0 = c.tok.chars().next().unwrap_or('-');
             let ok = c.res == "ok";
             let has = |t: &str| c.tags.contains(t);
@@ -1061,10 +1080,11 @@ fn run_child(case: &Value, scratch: &Path, tag: &str, model: &str) -> ChildOutco
         None => ChildOutcome::Timeout,
         // exit code 101 before any result was written and within a moment: the child's own start-up
         // (spawning its model driver) failed under load
-        Some(st) if !st.success() && !out.exists() && t0.elapsed() < Duration::from_millis(500) && case["retried"].is_null() => {
+        Some(st) if !st.success() && !out.exists() && t0.elapsed() < Duration::from_millis(500) && case["retried"].as_u64().unwrap_or(0) < 4 => {
             let mut c2 = case.clone();
-            c2["retried"] = json!(true);
-            std::thread::sleep(Duration::from_millis(200));
+            let n = case["retried"].as_u64().unwrap_or(0) + 1;
+            c2["retried"] = json!(n);
+            std::thread::sleep(Duration::from_millis(300 * n));
             return run_child(&c2, scratch, tag, model);
         }
         Some(st) => match std::fs::read_to_string(&out).ok().and_then(|s| serde_json::from_str::<Value>(&s).ok()) {
